@@ -496,7 +496,7 @@ def _children_used(cb):
         arg = cb.args.args[1].arg if len(cb.args.args) > 1 else None
         nodes_ = cb.body
         st = [x for x in cb.body if not (isinstance(x, ast.Expr) and isinstance(x.value, ast.Constant))]
-        if len(st) == 2 and isinstance(st[0], ast.Assign) and isinstance(st[0].targets[0], ast.Tuple) and len(st[0].targets[0].elts) == 1 \
+        if len(st) == 2 and isinstance(st[0], ast.Assign) and isinstance(st[0].targets[0], (ast.Tuple, ast.List)) and len(st[0].targets[0].elts) == 1 \
                 and isinstance(st[0].value, ast.Name) and st[0].value.id == arg and isinstance(st[1], ast.Return):
             return {0}, "single"
         if len(st) == 1 and isinstance(st[0], ast.Return) and arg and re.fullmatch(r"""['"]{2}\.join\(%s\)""" % arg, ast.unparse(st[0].value).replace(" ", "")):
